@@ -116,7 +116,7 @@ func startDates(thorough bool, r *rand.Rand) [][]int {
 	}
 	n := 60
 	if thorough {
-		n = 1500
+		n = 800
 	}
 	for k := 0; k < n; k++ {
 		d := randomDate(r)
@@ -155,7 +155,7 @@ func startStamps(thorough bool, offsets []int, r *rand.Rand) [][]int {
 	}
 	n := 40
 	if thorough {
-		n = 600
+		n = 300
 	}
 	for k := 0; k < n; k++ {
 		y := r.Intn(20001) - 10000
